@@ -492,6 +492,35 @@ def gen_errors(repo):
     sts = sorted(sts)
     g.add("raisedStatuses", "List Nat", "[" + ", ".join(str(x) for x in sts) + "]",
           "every status code given to an exception raised in the anchored functions (0: not an HTTPException)", sts)
+    # every OTHER callee of the anchored functions: the calls the model takes for total on the values that reach
+    # them (constructors of baize's own exceptions and event classes, str/bytes/list/dict/re-match methods,
+    # builtins, the handlers that are themselves anchored under another name).  Pinned as a whole: a new callee
+    # (`unquote`, `lru_cache`, `astimezone`, ...) is a new way to raise that the model does not know.
+    others = set()
+    for fid, rel, cls, fn in ANCHORS:
+        scope = find_class(trees[rel], cls) if cls else trees[rel]
+        if cls:
+            node = [n for n in scope.body if isinstance(n, (ast.FunctionDef, ast.AsyncFunctionDef)) and n.name == fn][-1]
+        else:
+            node = find_func(scope, fn)
+        for n in ast.walk(node):
+            if not isinstance(n, ast.Call):
+                continue
+            f = n.func
+            if isinstance(f, ast.Name):
+                if f.id not in NAME_CALLS:
+                    others.add("name:" + f.id)
+            elif isinstance(f, ast.Attribute):
+                recv = f.value
+                rname = recv.id if isinstance(recv, ast.Name) else None
+                if isinstance(recv, ast.Attribute) and isinstance(recv.value, ast.Name):
+                    rname = (recv.value.id, recv.attr)
+                if not (f.attr in ("decode", "encode") or (rname, f.attr) in ATTR_CALLS or (None, f.attr) in ATTR_CALLS):
+                    others.add("attr:" + f.attr)
+            else:
+                others.add("expr:" + type(f).__name__)
+    g.add("otherCallees", "List String", "[" + ", ".join(lean_str(x) for x in sorted(others)) + "]",
+          "callees of the anchored functions that are not call sites of the model (taken for total)", sorted(others))
     g.add("allSites", "List String", "[" + ", ".join(lean_str(x) for x in all_sites) + "]",
           "every site found, `<definition name>=<kind>`, in source order per function (pinned by source_pinned)",
           all_sites)
